@@ -87,3 +87,6 @@ pub mod handshake;
 pub mod messages;
 pub mod sessions;
 pub mod time;
+
+#[cfg(feature = "verif")]
+pub mod verif;
